@@ -1026,7 +1026,7 @@ pub fn run(c: &mut Ctx) {
         if c.out_of_time() {
             break;
         }
-        ctx::slot_write(idx, "C11 exchange", &[]);
+        ctx::slot_write(idx, &format!("{}|case", fam), &[]);
         exchange(c, fam, idx, &mut log);
     }
     let fam = "sequence";
@@ -1035,7 +1035,7 @@ pub fn run(c: &mut Ctx) {
         if c.out_of_time() {
             break;
         }
-        ctx::slot_write(idx, "C11 sequence", &[]);
+        ctx::slot_write(idx, &format!("{}|case", fam), &[]);
         sequence(c, fam, idx, &mut log);
     }
     if !c.replaying() {
